@@ -6,8 +6,9 @@ The Model functions named here are the ones `ofv-driver` executes in the corresp
 Proved end-to-end for one term: `qubit_term_matrix_sound` (the Kronecker chain of a Pauli string is
 its matrix in the big-endian basis, all register sizes).  Not proved (see OPEN_STATEMENTS in
 harness/c06.py): the coordinate assembly over several terms (`qubitTermTriplets` with the swapped
-`nonzero()` order, `canonEntries`) and `jw_sparse_sound`; they are covered by the exact
-correspondence run and the Spec oracle.
+`nonzero()` order) and the product of ladder matrices over a fermionic term (`jw_sparse_sound`;
+each ladder matrix is proved: `jw_ladder_sound`); they are covered by the exact correspondence run
+and the Spec oracle.
 -/
 import OFV.Model.C06
 import OFV.Spec.C06
@@ -15,6 +16,7 @@ import OFV.Proofs.C06Basic
 import OFV.Proofs.C06Kron
 import OFV.Proofs.C06Term
 import OFV.Proofs.C06Matvec
+import OFV.Proofs.C06Ladder
 
 namespace OFV.C06
 open OFV OFV.Spec OFV.Spec.C06 OFV.Model OFV.Model.C06 OFV.Proofs.C06
@@ -87,6 +89,22 @@ theorem qubit_term_matrix_sound (n : Nat) (t : List (Nat × Nat)) (c : GQ)
 example : (kronList (qubitTermFactors 3 [(0, 2), (2, 3)] ⟨2, 0⟩)).get (beIndex 3 0b101) (beIndex 3 0b100) = ⟨0, -2⟩ ∧
     Spec.C07.ampP [(0, 2), (2, 3)] 0b100 0b101 = ⟨0, -1⟩ := by
   refine ⟨by decide +kernel, by decide +kernel⟩
+
+/-! ### `jordan_wigner_ladder_sparse` -/
+
+/-- `jw_ladder_sound`: for every register size `n > j` the matrix
+`kron(Z, …, Z, q_raise | q_lower, identity(2^(n-j-1)))` has at (row `beIndex n u`, column
+`beIndex n s`) the Spec matrix element `⟨u| a_j^(†) |s⟩` — `(-1)^{#occupied modes below j}` if the
+ladder operator maps `|s⟩` to `|u⟩`, else 0 — for all basis states `s, u < 2^n`. -/
+theorem jw_ladder_sound (n j ty : Nat) (hj : j < n) (ht : ty ≤ 1) (s u : Nat) (hs : s < 2 ^ n) (hu : u < 2 ^ n) :
+    (jwLadder n j ty).get (beIndex n u) (beIndex n s) =
+      (match actF j ty s with
+       | none => 0
+       | some (k, s') => if s' = u then GQ.sgn k else 0) :=
+  jwLadder_get n j ty hj ht s u hs hu
+
+example : (jwLadder 3 1 1).get (beIndex 3 0b011) (beIndex 3 0b001) = -1 ∧ actF 1 1 0b001 = some (1, 0b011) := by
+  refine ⟨by decide +kernel, by decide⟩
 
 /-! ### coordinate assembly -/
 
